@@ -45,8 +45,8 @@ def showFrame (f : Frame) : String :=
   s!"{f.op},{f.cfg.x},{f.cfg.v},{if f.vr then 1 else 0},{showOptInt f.vpot}"
 
 def showReq : Req → String
-  | .propagate e r op c m l rr => s!"P:{e}:{if r then 1 else 0}:{op}:{c.x}:{c.v}:{m}:{l}:{rr}"
-  | .dump e t c => s!"D:{e}:{t}:{c.x}:{c.v}"
+  | .propagate e r op c m l rr f => s!"P:{e}:{if r then 1 else 0}:{op}:{c.x}:{c.v}:{m}:{l}:{rr}:{if f then "copy" else "OLD"}"
+  | .dump e t c f => s!"D:{e}:{t}:{c.x}:{c.v}:{if f then "copy" else "OLD"}"
 
 def takeEns : List String → Option (Ens × List String)
   | a :: b :: c :: m :: l :: r :: w :: cap :: rest =>
